@@ -14,6 +14,10 @@
 
 #include "bloch/runtime/runtime_evaluator.hpp"
 
+#ifdef BLOCH_VERIF
+#include "bloch/runtime/verif_hooks.hpp"
+#endif
+
 #include <algorithm>
 #include <chrono>
 #include <cmath>
@@ -1189,14 +1193,23 @@ namespace bloch::runtime {
     void RuntimeEvaluator::ensureGcThread() {
         if (m_gcThread.joinable())
             return;
+#ifdef BLOCH_VERIF
+        if (verif::gc().timerOff)
+            return;
+#endif
         m_stopGc = false;
         m_gcRequested = false;
         m_gcThreadStarted = true;
         m_gcThread = std::thread([this]() {
             std::unique_lock<std::mutex> lock(m_gcMutex);
             while (!m_stopGc.load()) {
+#ifdef BLOCH_VERIF
+                m_gcCv.wait_for(lock, std::chrono::milliseconds(verif::gc().timerMs),
+                                [this]() { return m_stopGc.load(); });
+#else
                 m_gcCv.wait_for(lock, std::chrono::milliseconds(50),
                                 [this]() { return m_stopGc.load(); });
+#endif
                 if (m_stopGc.load())
                     break;
                 requestGc();
@@ -1204,7 +1217,15 @@ namespace bloch::runtime {
         });
     }
 
+#ifdef BLOCH_VERIF
+    void RuntimeEvaluator::requestGc() {
+        if (verif::gc().suppressRequests)
+            return;
+        m_gcRequested = true;
+    }
+#else
     void RuntimeEvaluator::requestGc() { m_gcRequested = true; }
+#endif
 
     void RuntimeEvaluator::markObject(const std::shared_ptr<Object>& obj) {
         if (!obj || obj->marked)
@@ -1260,6 +1281,12 @@ namespace bloch::runtime {
         for (auto& obj : unreachable) {
             for (auto& f : obj->fields) f = {};
         }
+#ifdef BLOCH_VERIF
+        if (verif::sinkOn())
+            verif::emit("{\"e\":\"collect\",\"at\":" + std::to_string(verif::gc().counter) +
+                        ",\"objects\":" + std::to_string(objects.size()) + ",\"cleared\":" +
+                        std::to_string(unreachable.size()) + "}");
+#endif
         // unreachable will drop here and be reclaimed without running destructors
         m_allocSinceGc = 0;
     }
@@ -1273,6 +1300,11 @@ namespace bloch::runtime {
                 outcome = m_lastMeasurement[q] ? "1" : "0";
             }
             m_trackedCounts[name][outcome]++;
+#ifdef BLOCH_VERIF
+            if (verif::sinkOn())
+                verif::emit("{\"e\":\"tracked\",\"key\":\"" + verif::jsonEscape(name) + "\",\"outcome\":\"" +
+                            outcome + "\"}");
+#endif
         } else if (v.type == Value::Type::QubitArray) {
             bool allMeasured = true;
             std::string bits;
@@ -1289,6 +1321,11 @@ namespace bloch::runtime {
                 outcome = bits;
             }
             m_trackedCounts[name][outcome]++;
+#ifdef BLOCH_VERIF
+            if (verif::sinkOn())
+                verif::emit("{\"e\":\"tracked\",\"key\":\"" + verif::jsonEscape(name) + "\",\"outcome\":\"" +
+                            outcome + "\"}");
+#endif
         }
     }
 
@@ -1602,6 +1639,10 @@ namespace bloch::runtime {
     }
 
     void RuntimeEvaluator::exec(Statement* s) {
+#ifdef BLOCH_VERIF
+        if (verif::onStatement())
+            m_gcRequested = true;
+#endif
         if (m_gcRequested.load())
             runCycleCollector();
         if (!s)
@@ -3116,6 +3157,11 @@ namespace bloch::runtime {
         m_qubits[idx].measured = false;
         if (idx >= static_cast<int>(m_lastMeasurement.size()))
             m_lastMeasurement.resize(idx + 1, -1);
+#ifdef BLOCH_VERIF
+        if (verif::sinkOn())
+            verif::emit("{\"e\":\"qalloc\",\"idx\":" + std::to_string(idx) + ",\"name\":\"" +
+                        verif::jsonEscape(name) + "\"}");
+#endif
         return idx;
     }
 
@@ -3130,6 +3176,10 @@ namespace bloch::runtime {
         unmarkMeasured(index);
         m_qubits[index].name.clear();
         m_freeQubitIndices.push_back(index);
+#ifdef BLOCH_VERIF
+        if (verif::sinkOn())
+            verif::emit("{\"e\":\"release\",\"idx\":" + std::to_string(index) + "}");
+#endif
     }
 
     void RuntimeEvaluator::ensureQubitExists(int index, int line, int column) {
@@ -3187,6 +3237,11 @@ namespace bloch::runtime {
                 }
                 std::string key = std::string("qubit ") + name;
                 m_trackedCounts[key][outcome]++;
+#ifdef BLOCH_VERIF
+                if (verif::sinkOn())
+                    verif::emit("{\"e\":\"tracked\",\"key\":\"" + verif::jsonEscape(key) +
+                                "\",\"outcome\":\"" + outcome + "\"}");
+#endif
             } else if (v.type == Value::Type::QubitArray) {
                 bool allMeasured = true;
                 std::string bits;
@@ -3206,6 +3261,11 @@ namespace bloch::runtime {
                 }
                 std::string key = std::string("qubit[] ") + name;
                 m_trackedCounts[key][outcome]++;
+#ifdef BLOCH_VERIF
+                if (verif::sinkOn())
+                    verif::emit("{\"e\":\"tracked\",\"key\":\"" + verif::jsonEscape(key) +
+                                "\",\"outcome\":\"" + outcome + "\"}");
+#endif
             }
         }
         m_env.pop_back();
